@@ -11,9 +11,9 @@ Model of tonic's status ↔ header codec (C04), following `tonic/src/status.rs`:
   * `Status::from_header_map`                                        → `fromHeaderMap`
   * `infer_grpc_status` + the end-of-body step of `Streaming`        → `inferGrpcStatus` / `streamEnd`
   * `code_from_h2`, `to_h2_error`                                    → `codeFromH2` / `toH2`
-`Variant.orig` is the pinned tree as found; `Variant.fixed` is the tree with the two repairs
-fixes/fix-C04-details-base64-panic.patch and fixes/fix-C04-h2-frame-size.patch applied (the
-tree the correspondence run drives).
+`Variant.orig` is the pinned tree as found; `Variant.fixed` is the tree with the repairs
+fixes/fix-C04-details-base64-panic.patch, fixes/fix-C04-h2-frame-size.patch and
+fixes/fix-C12-status-details-metadata.patch applied (the tree the correspondence run drives).
 -/
 namespace Status
 
@@ -122,14 +122,21 @@ def withDetails (st : St) (h : HMap) : Except St HMap :=
     let w := B64.encode false st.details
     if HMap.legalValue w then .ok (HMap.insert GRPC_STATUS_DETAILS w h) else .error invalidHeaderStatus
 
+/-- the metadata `add_header` copies into the block: sanitised, and (repaired tree) without a
+`grpc-status-details-bin` entry, which belongs to the `details` field -/
+def statusMetadata (v : Variant) (md : HMap) : HMap :=
+  match v with
+  | .orig => sanitize md
+  | .fixed => HMap.remove GRPC_STATUS_DETAILS (sanitize md)
+
 /-- `Status::add_header` -/
-def addHeader (st : St) (h : HMap) : Except St HMap :=
-  match withMessage st (HMap.insert GRPC_STATUS st.code.headerValue (HMap.extend h (sanitize st.metadata))) with
+def addHeader (v : Variant) (st : St) (h : HMap) : Except St HMap :=
+  match withMessage st (HMap.insert GRPC_STATUS st.code.headerValue (HMap.extend h (statusMetadata v st.metadata))) with
   | .error e => .error e
   | .ok h => withDetails st h
 
 /-- `Status::to_header_map` -/
-def toHeaderMap (st : St) : Except St HMap := addHeader st []
+def toHeaderMap (v : Variant) (st : St) : Except St HMap := addHeader v st []
 
 inductive Outcome
   | panic
